@@ -98,6 +98,7 @@ def show(fs):
 def run(M, cls, func, owner, env, script=None, max_forks=512):
     rd = Reader(M, script)
     it = Interp(M.proto, M.folder, effect=rd.effect, max_forks=max_forks)
+    it.eval_dicts = True
     outs = []
     # the Reader's counter must restart for every fork re-interpretation
     orig = it.call_func
@@ -225,8 +226,19 @@ def check(chk):
                 if gp != wp:
                     probs.append('reads [%s], specification has [%s]' % (', '.join(map(str, gp)), ', '.join(wp)))
                 else:
-                    for (prim, role), r in zip(want, gp_roles):
-                        if role == 'failures' and r in ('failures', 'error_code_map'):
+                    # where the value read ends up: the keys of the returned dict whose value is computed from that read (whatever locals it passed through)
+                    val = o.value if isinstance(o.value, dict) else {}
+                    rev = [e for e in o.events if e[0] == 'r']
+                    keys_of = {}
+                    if len(rev) == len(got):
+                        for idx, e in enumerate(rev):
+                            tag = '%s#%d' % (e[1], idx)
+                            keys_of[idx] = set(k for k, vv in val.items() if isinstance(k, str) and tag in text_of(vv))
+                    for idx, ((prim, role), r) in enumerate(zip(want, gp_roles)):
+                        dest = keys_of.get(idx) or set([r])
+                        if role == 'failures' and dest & set(['failures', 'error_code_map']):
+                            continue
+                        if role in dest:
                             continue
                         if role == 'query_id':
                             continue
